@@ -64,6 +64,7 @@ func c09Transparency(c *core.Ctx) {
 	app := drive.Single(p)
 	c.Journal(descOf(p, argv))
 	base := drive.OutcomeKey(p, drive.Run(app, argv))
+	c.LibDone()
 	c.Eval()
 	points := []int{len(argv)}
 	if c.Tier == "thorough" {
@@ -79,6 +80,7 @@ func c09Transparency(c *core.Ctx) {
 		d.Note = fmt.Sprintf("-- inserted at %d of %d (trailing block of %d)", ins, len(argv), nt)
 		c.Journal(d)
 		got := drive.OutcomeKey(p, drive.Run(app, a2))
+		c.LibDone()
 		c.Eval()
 		if len(a2) >= 2 {
 			c.Nontrivial("T", d.Decl, d.Spec, fmt.Sprintf("%q", a2))
@@ -108,6 +110,7 @@ func c09Judge(c *core.Ctx, p *Prog, argv []string, fam string) (string, bool) {
 	nfa, nfaR := BuildNFA(p, false), BuildNFA(p, true)
 	c.Journal(descOf(p, argv))
 	obs := drive.Run(drive.Single(p), argv)
+	c.LibDone()
 	c.Eval()
 	key := drive.OutcomeKey(p, obs)
 	if obs.SpecErr != nil || obs.Pan != nil || strings.HasPrefix(key, "INCONSISTENT") || obs.Exit != nil {
